@@ -150,7 +150,25 @@ SliceLeaves(tk) == LET idx == {i \in 1..Len(tk) : tk[i].k \in {"s", "b"}}
 RECURSIVE SumN(_, _)
 SumN(tk, i) == IF i = 0 THEN 0 ELSE tk[i].n + SumN(tk, i - 1)
 ScratchNeed(tk) == SumN(tk, Len(tk))
-\* leaves of a reader decode: offsets in the scratch buffer (cumulative block sizes)
+\* What the statements fix about a reader-based decode and what they leave to the implementation: borrowed strings and
+\* byte slices must lie in disjoint parts of the caller's scratch buffer; whether blocks that are not borrowed (floats,
+\* chars) pass through the scratch at all is not prescribed. So: the scratch surely suffices when every block read fits
+\* (ScratchNeed), it cannot suffice when the borrowed blocks alone do not fit (BorrowNeed), and in between either outcome is
+\* acceptable as long as a success places the leaves correctly.
+BorrowBlocks(tk) == SelectSeq(tk, LAMBDA t : t.k \in {"s", "b"})
+RECURSIVE SumB(_, _)
+SumB(B, i) == IF i = 0 THEN 0 ELSE B[i].n + SumB(B, i - 1)
+BorrowNeed(tk) == LET B == BorrowBlocks(tk) IN SumB(B, Len(B))
+\* obs: observed leaves <<offset, length, kind>> in decoding order; all inside [lo, hi), pairwise disjoint, with the lengths
+\* and kinds of the borrowed blocks in order (empty leaves carry no position)
+ReaderLeavesOK(obs, tk, lo, hi) ==
+  LET B == BorrowBlocks(tk) IN
+  /\ Len(obs) = Len(B)
+  /\ \A j \in 1..Len(B) : /\ obs[j][2] = B[j].n /\ obs[j][3] = (IF B[j].k = "s" THEN 0 ELSE 1)
+                           /\ (B[j].n > 0 => (obs[j][1] >= lo /\ obs[j][1] + obs[j][2] <= hi))
+  /\ \A j \in 1..Len(B) : \A k \in (j + 1)..Len(B) :
+        (B[j].n = 0 \/ B[k].n = 0 \/ obs[j][1] + obs[j][2] <= obs[k][1] \/ obs[k][1] + obs[k][2] <= obs[j][1])
+\* leaves of a reader decode as the current implementation places them: offsets in the scratch buffer (cumulative block sizes)
 ReaderLeaves(tk) == LET F[i \in 0..Len(tk)] == IF i = 0 THEN <<>>
                                                ELSE IF tk[i].k \in {"s", "b"} THEN Append(F[i-1], <<SumN(tk, i-1), tk[i].n, IF tk[i].k = "s" THEN 0 ELSE 1>>)
                                                ELSE F[i-1]
